@@ -1134,3 +1134,42 @@ T: S | ;";
         }
     }
 }
+
+/// Verification hooks (compiled only under `--cfg kani` / `--cfg grmtools_verif`).
+#[cfg(any(kani, grmtools_verif))]
+impl<StorageT: 'static + Hash + PrimInt + Unsigned> StateTable<StorageT>
+where
+    usize: AsPrimitive<StorageT>,
+{
+    pub fn verif_encode(a: Action<StorageT>) -> usize {
+        StateTable::encode(a)
+    }
+
+    pub fn verif_decode(bits: usize) -> Action<StorageT> {
+        StateTable::decode(bits)
+    }
+
+    /// Wrapper for the private shift/reduce resolution kernel.
+    #[allow(clippy::too_many_arguments)]
+    pub fn verif_resolve_shift_reduce(
+        grm: &YaccGrammar<StorageT>,
+        actions: &mut [usize],
+        off: usize,
+        tidx: TIdx<StorageT>,
+        pidx: PIdx<StorageT>,
+        stidx: StIdx<StorageT>,
+        shift_reduce: &mut Vec<(TIdx<StorageT>, PIdx<StorageT>, StIdx<StorageT>)>,
+        conflict_stidx: StIdx<StorageT>,
+    ) {
+        resolve_shift_reduce(
+            grm,
+            actions,
+            off,
+            tidx,
+            pidx,
+            stidx,
+            shift_reduce,
+            conflict_stidx,
+        )
+    }
+}
